@@ -4,8 +4,10 @@
 // sweep.TxPublisher and sweep.LinearFeeFunction run unmodified inside a
 // testing/synctest bubble; the simulator owns every seam around them: the
 // wallet (mempool verdicts, publishing, wallet UTXOs), the fee estimator, the
-// chain notifier (spends, confirmations), the block beats, the sweeper store and
-// the signer (real keys). All choices come from the simcore tape.
+// chain notifier (spends, confirmations), the mempool lookup, the block beats,
+// the sweeper store and the signer (real keys). A restart replaces the sweeper
+// and the publisher by fresh ones over the same seams (the store, the mempool
+// and the chain are what survives). All choices come from the simcore tape.
 package sweepsim
 
 import (
@@ -20,6 +22,7 @@ import (
 	"github.com/btcsuite/btcd/wire/v2"
 	"github.com/btcsuite/btcwallet/chain"
 	"github.com/lightningnetwork/lnd/chainntnfs"
+	"github.com/lightningnetwork/lnd/fn/v2"
 	"github.com/lightningnetwork/lnd/input"
 	"github.com/lightningnetwork/lnd/lnwallet"
 	"github.com/lightningnetwork/lnd/lnwallet/chainfee"
@@ -49,6 +52,9 @@ type Config struct {
 	InitialUtxos  int
 	MaxOffered    int
 	StartHeight   int32
+	// Restarts enables the "restart" step (sweeper and publisher are stopped
+	// and rebuilt over the same outside world).
+	Restarts bool
 }
 
 func (c Config) maxRateKW() int64 { return c.MaxRateVB * 250 }
@@ -74,6 +80,17 @@ type simInput struct {
 	// "the starting fee rate to use for the next sweeping attempt"
 	retryRate int64
 	retryFrom string
+	// params is what the input was first offered with; a restart re-offers
+	// the input with the same value (what a contract resolver does).
+	params sweep.Params
+	// hadSweep: at the time of the last restart the node's own unconfirmed
+	// sweep of this input was in the mempool.
+	hadSweep bool
+	// restartTx: the node's own sweep of this input that was in the mempool
+	// when the input was re-offered after a restart (backend with mempool
+	// lookup only); cleared once a bump request containing the input has
+	// been judged against it.
+	restartTx *poolTx
 }
 
 func (in *simInput) label() string { return fmt.Sprintf("i%d", in.idx) }
@@ -98,7 +115,19 @@ type poolTx struct {
 	hash chainhash.Hash
 	fee  int64
 	req  *simReq
+	// ver is the 1-based position among the request's published versions.
+	ver         int
+	wAct, wNorm int64
+	hasChange   bool
+	// reported is BumpResult.FeeRate of the TxPublished / TxReplaced result
+	// that announced exactly this transaction (0: never announced).
+	reported int64
+	// ghostReplaced: the TxReplaced result that announced this transaction
+	// named as ReplacedTx a transaction the wallet never accepted.
+	ghostReplaced bool
 }
+
+func (p *poolTx) label() string { return fmt.Sprintf("%s version %d", p.req.key, p.ver) }
 
 type simReq struct {
 	minIdx, gen int
@@ -119,6 +148,16 @@ type simReq struct {
 	calls       int
 	seq         int
 	ceilChecked bool
+	// restartOld: the pre-restart sweep (with change output) of one of this
+	// request's inputs with the highest fee-over-size; the first transaction
+	// of the request is judged against it. restartFloor is that sweep's fee
+	// rate bounded from below (sat/kw).
+	restartOld   *poolTx
+	restartFloor int64
+	// the same over the sweeps NOT announced with a never-published
+	// ReplacedTx (see judgeRestartStart)
+	restartOldClean   *poolTx
+	restartFloorClean int64
 }
 
 type event struct {
@@ -394,6 +433,53 @@ func (s store) DeleteTx(h chainhash.Hash) error {
 	defer s.w.mu.Unlock()
 	delete(s.w.store, h)
 	return nil
+}
+
+// ---- chainntnfs.MempoolWatcher ----------------------------------------------
+
+// mempool answers the sweeper's lookup "is this outpoint already spent by an
+// unconfirmed transaction": with a full node from the simulated mempool, not
+// at all otherwise (neutrino has no mempool, an old btcd lacks
+// gettxspendingprevout). The subscription half of the interface is not used by
+// the sweeper.
+type mempool struct{ w *World }
+
+func (m mempool) SubscribeMempoolSpent(wire.OutPoint) (*chainntnfs.MempoolSpendEvent, error) {
+	return nil, errUnused
+}
+func (m mempool) CancelMempoolSpendEvent(*chainntnfs.MempoolSpendEvent) {}
+
+func (m mempool) LookupInputMempoolSpend(op wire.OutPoint) fn.Option[wire.MsgTx] {
+	w := m.w
+	w.mu.Lock()
+	defer w.mu.Unlock()
+	if w.cfg.Backend != backendFullNode {
+		return fn.None[wire.MsgTx]()
+	}
+	p := w.poolSpenderLocked(op)
+	if p == nil {
+		return fn.None[wire.MsgTx]()
+	}
+	w.r.Count("mempool_lookup_hit")
+	return fn.Some(*p.tx.Copy())
+}
+
+// poolSpenderLocked returns the mempool transaction that spends op (the
+// mempool model holds at most one per offered input; the smallest hash wins
+// should that ever not be so). Caller holds w.mu.
+func (w *World) poolSpenderLocked(op wire.OutPoint) *poolTx {
+	var best *poolTx
+	for _, p := range w.mempool {
+		for _, ti := range p.tx.TxIn {
+			if ti.PreviousOutPoint != op {
+				continue
+			}
+			if best == nil || string(p.hash[:]) < string(best.hash[:]) {
+				best = p
+			}
+		}
+	}
+	return best
 }
 
 // ---- chainntnfs.ChainNotifier ----------------------------------------------
@@ -682,7 +768,8 @@ func (wl wallet) PublishTransaction(tx *wire.MsgTx, _ string) error {
 	if err == nil {
 		h := tx.TxHash()
 		cp := tx.Copy()
-		p := &poolTx{tx: cp, hash: h, fee: info.fee, req: q}
+		p := &poolTx{tx: cp, hash: h, fee: info.fee, req: q, ver: len(q.published) + 1,
+			wAct: info.wAct, wNorm: info.wNorm, hasChange: info.hasChange}
 		for ph, old := range w.mempool {
 			for _, ti := range old.tx.TxIn {
 				if _, offered := w.byOp[ti.PreviousOutPoint]; offered && info.spends(ti.PreviousOutPoint) {
@@ -721,6 +808,9 @@ func (b bumper) Broadcast(req *sweep.BumpRequest) <-chan *sweep.BumpResult {
 
 	in := w.pub.Broadcast(req)
 	out := make(chan *sweep.BumpResult, 1)
+	// w.done is replaced by a restart: the forwarder belongs to the
+	// incarnation that created it.
+	done := w.done
 	w.fwd.Add(1)
 	go func() {
 		defer w.fwd.Done()
@@ -732,10 +822,10 @@ func (b bumper) Broadcast(req *sweep.BumpRequest) <-chan *sweep.BumpResult {
 				w.mu.Unlock()
 				select {
 				case out <- res:
-				case <-w.done:
+				case <-done:
 					return
 				}
-			case <-w.done:
+			case <-done:
 				return
 			}
 		}
